@@ -349,7 +349,7 @@ fn build_case<T: Target>(ch: &mut Chooser, origin: P, h: usize, w: usize, mode: 
         for _ in 0..w { row.push(ch.pick("cell", &alpha)); }
         grid.push(row);
     }
-    let detour = if matches!(mode, HMode::None | HMode::All) { ch.choose("builder-reaches-its-setting-through-another-one", 3) as u8 } else { 0 };
+    let detour = if matches!(mode, HMode::None | HMode::All) { ch.choose("builder-reaches-its-setting-through-another-one(direct, via the opposite setting, via a selection, Range::deserialize)", if mode == HMode::All { 4 } else { 3 }) as u8 } else { 0 };
     let walk = if data_rows >= 1 { ch.choose("iterator-consumed-by(next,nth(0),nth(1) from two iterators,collect)", 4) as u8 } else { 0 };
     Some(Case { origin, h, w, mode, grid, selection, detour, walk })
 }
@@ -376,6 +376,7 @@ fn observe<T: Target>(c: &Case, range: &Range<Data>) -> Obs {
         HMode::None => RangeDeserializerBuilder::new().has_headers(false).from_range::<Data, T>(range),
         HMode::All if c.detour == 1 => RangeDeserializerBuilder::new().has_headers(false).has_headers(true).from_range::<Data, T>(range),
         HMode::All if c.detour == 2 => { static ONE: [&str; 1] = ["a"]; RangeDeserializerBuilder::with_headers(&ONE).has_headers(true).from_range::<Data, T>(range) }
+        HMode::All if c.detour == 3 => range.deserialize::<T>(),
         HMode::All => RangeDeserializerBuilder::new().from_range::<Data, T>(range),
         HMode::Custom => RangeDeserializerBuilder::with_headers(&sel).from_range::<Data, T>(range),
         HMode::FromStruct => RangeDeserializerBuilder::with_deserialize_headers::<T>().from_range::<Data, T>(range),
@@ -461,6 +462,14 @@ fn run_case<T: Target>(rep: &Report, ch: &mut Chooser, origin: P, h: usize, w: u
     if dry { return; }
     let range = make_range(&c);
     rep.eval(1);
+    // Range::headers() is the first row of the range, cell by cell in its display form (None for a range without rows)
+    {
+        let got = guarded(|| range.headers());
+        let exp = if c.h == 0 { None } else { Some((0..c.w).map(|j| range.get((0, j)).map(|d| d.to_string()).unwrap_or_default()).collect::<Vec<_>>()) };
+        if !matches!(&got, Ok(g) if *g == exp) {
+            rep.fail("range-headers", &format!("Range::headers() gave {got:?}, the first row is {exp:?}"), || Replay { json: json!({"choices": ch.choices(), "outer": [T::NAME, origin, h, w, format!("{mode:?}")]}), files: vec![] });
+        }
+    }
     let desc = || json!({"target": T::NAME, "origin": c.origin, "h": c.h, "w": c.w, "mode": format!("{:?}", c.mode), "selection": c.selection,
         "grid": c.grid.iter().map(|r| r.iter().map(|d| format!("{d:?}")).collect::<Vec<_>>()).collect::<Vec<_>>()});
     let input_hash = hash_of(&format!("{}", desc()));
